@@ -19,9 +19,13 @@
 package main
 
 import (
+	"bufio"
+	"bytes"
 	"encoding/json"
 	"fmt"
+	"io"
 	"os"
+	"os/exec"
 	"sort"
 	"strconv"
 	"strings"
@@ -401,11 +405,16 @@ func compare(h *Hist, out string) *divergence {
 }
 
 type runner struct {
-	ctx *pyrun.Ctx
-	n   int
+	ctx     *pyrun.Ctx
+	n       int
+	patient bool
 }
 
 const histTimeout = 20 * time.Second
+
+// a history that timed out is tried again with this much patience before the timeout counts (a starved
+// machine must not look like a hanging interpreter)
+const retryTimeout = 150 * time.Second
 
 // run executes one history in the runner's context; a panic or timeout retires the context
 func (r *runner) run(src string) *pyrun.Result {
@@ -417,7 +426,11 @@ func (r *runner) run(src string) *pyrun.Result {
 		r.n = 0
 	}
 	r.n++
-	res := r.ctx.Exec(src, histTimeout)
+	to := histTimeout
+	if r.patient {
+		to = retryTimeout
+	}
+	res := r.ctx.Exec(src, to)
 	if res.Panic != "" || res.TimedOut {
 		if !res.TimedOut {
 			r.ctx.Close()
@@ -477,7 +490,130 @@ func keyOf(h *Hist, d *divergence) string {
 	return fmt.Sprintf("C17|%s|kind=%s%s|observed=%s", st.Form, h.Kind, cls, d.Kind)
 }
 
+// ---------------------------------------------------------------------------------------
+// replay workers are subprocesses: a broken container can make the interpreter abort the whole process (a list
+// that contains itself sends repr/== into unbounded Go recursion, a fatal error that recover() cannot catch)
+
+type reply struct {
+	D      *divergence `json:"d"`
+	Panic  bool        `json:"panic"`
+	Retire bool        `json:"retire"` // a statement timed out: its goroutine is still running, replace this worker
+}
+
+// workerMain: one history per input line, one reply per output line
+func workerMain() {
+	rd := bufio.NewReaderSize(os.Stdin, 1<<20)
+	out := bufio.NewWriter(os.Stdout)
+	r := &runner{}
+	for {
+		line, err := rd.ReadBytes('\n')
+		if len(bytes.TrimSpace(line)) > 0 {
+			h := &Hist{}
+			if json.Unmarshal(line, h) != nil {
+				os.Exit(3)
+			}
+			d, res := check(r, h)
+			if d != nil {
+				// re-run once in a fresh context (and with more patience) before reporting
+				r2 := &runner{patient: true}
+				d, res = check(r2, h)
+				if r2.ctx != nil {
+					r2.ctx.Close()
+				}
+			}
+			b, _ := json.Marshal(reply{D: d, Panic: res.Panic != "", Retire: res.TimedOut})
+			out.Write(append(b, '\n'))
+			out.Flush()
+		}
+		if err != nil {
+			return
+		}
+	}
+}
+
+type proc struct {
+	cmd    *exec.Cmd
+	in     io.WriteCloser
+	out    *bufio.Reader
+	stderr *bytes.Buffer
+}
+
+func startProc() *proc {
+	cmd := exec.Command(os.Args[0])
+	cmd.Env = append(os.Environ(), "GPV_WORKER=1")
+	in, err1 := cmd.StdinPipe()
+	out, err2 := cmd.StdoutPipe()
+	p := &proc{cmd: cmd, in: in, stderr: &bytes.Buffer{}}
+	cmd.Stderr = &limited{buf: p.stderr, max: 4096}
+	if err1 != nil || err2 != nil || cmd.Start() != nil {
+		common.Inconclusive("property=C17 cannot start a replay worker")
+	}
+	p.out = bufio.NewReaderSize(out, 1<<20)
+	return p
+}
+
+type limited struct {
+	buf *bytes.Buffer
+	max int
+}
+
+func (l *limited) Write(b []byte) (int, error) {
+	if room := l.max - l.buf.Len(); room > 0 {
+		if len(b) < room {
+			room = len(b)
+		}
+		l.buf.Write(b[:room])
+	}
+	return len(b), nil
+}
+
+func (p *proc) stop() {
+	p.in.Close()
+	p.cmd.Process.Kill()
+	p.cmd.Wait()
+}
+
+// ask sends one history; ok=false: the worker died or hung (what = first line of what it said)
+func (p *proc) ask(h *Hist) (rep reply, ok bool, what string) {
+	b, _ := json.Marshal(h)
+	if _, err := p.in.Write(append(b, '\n')); err != nil {
+		return rep, false, p.lastWords()
+	}
+	type ans struct {
+		line []byte
+		err  error
+	}
+	ch := make(chan ans, 1)
+	go func() {
+		line, err := p.out.ReadBytes('\n')
+		ch <- ans{line, err}
+	}()
+	select {
+	case a := <-ch:
+		if a.err != nil || json.Unmarshal(a.line, &rep) != nil {
+			p.cmd.Wait()
+			return rep, false, p.lastWords()
+		}
+		return rep, true, ""
+	case <-time.After(histTimeout + retryTimeout + 30*time.Second):
+		return rep, false, "no answer (hung)"
+	}
+}
+
+func (p *proc) lastWords() string {
+	for _, l := range strings.Split(p.stderr.String(), "\n") {
+		if strings.HasPrefix(l, "fatal error:") || strings.HasPrefix(l, "panic:") {
+			return common.TrimKey(l, 60)
+		}
+	}
+	return "worker died"
+}
+
 func main() {
+	if os.Getenv("GPV_WORKER") != "" {
+		workerMain()
+		return
+	}
 	env := common.Setup()
 	rep := common.NewReport(env, "model_checking")
 	rep.Rule = "a case is one history printed by TLC from spec/C17/PyHeap.tla: an edge of the state graph of the reference model (a heap situation and one statement) with a shortest history reaching it, or a simulated long history; distinct by (kind, statements); all are non-trivial (at least one statement on aliased containers, observation compared after every statement)"
@@ -506,35 +642,56 @@ func main() {
 		stopped   int64 // histories whose divergence was in a prefix step (their last edge was not reached)
 		panics    int64
 		simHist   int64
+		fatals    int64
 	)
 	jobs := make(chan *Hist, 8192)
 	var wg sync.WaitGroup
-	nw := 6
-	if env.Workers < 8 {
+	// replay workers (subprocesses); the thorough tier has ten times the histories
+	nw := env.Pick(8, 12)
+	if nw > env.Workers {
+		nw = env.Workers
+	}
+	if nw < 4 {
 		nw = 4
 	}
 	for w := 0; w < nw; w++ {
 		wg.Add(1)
 		go func() {
 			defer wg.Done()
-			r := &runner{}
+			p := startProc()
 			for h := range jobs {
-				d, res := check(r, h)
-				if d != nil {
-					// re-run once in a fresh context before reporting
-					r2 := &runner{}
-					d, res = check(r2, h)
-					if r2.ctx != nil {
-						r2.ctx.Close()
+				rp, ok, what := p.ask(h)
+				if !ok {
+					// the worker died on this history: find the first statement that kills a fresh worker
+					p.stop()
+					k := len(h.Steps) - 1
+					for n := 1; n <= len(h.Steps); n++ {
+						q := startProc()
+						pre := *h
+						pre.Steps = h.Steps[:n]
+						_, ok2, _ := q.ask(&pre)
+						q.stop()
+						if !ok2 {
+							k = n - 1
+							break
+						}
 					}
+					rp = reply{D: &divergence{k, "fatal:" + what, h.Steps[k].Res, "the interpreter process died"}}
+					atomic.AddInt64(&fatals, 1)
+					p = startProc()
 				}
+				if rp.Retire {
+					p.stop()
+					p = startProc()
+				}
+				d := rp.D
 				atomic.AddInt64(&runs, 1)
 				atomic.AddInt64(&steps, int64(len(h.Steps)))
 				if d != nil {
 					if d.Step < len(h.Steps)-1 {
 						atomic.AddInt64(&stopped, 1)
 					}
-					if res.Panic != "" {
+					if rp.Panic {
 						atomic.AddInt64(&panics, 1)
 					}
 					var stmts []string
@@ -545,9 +702,7 @@ func main() {
 						"divergence": d, "program": render(h)})
 				}
 			}
-			if r.ctx != nil {
-				r.ctx.Close()
-			}
+			p.stop()
 		}()
 	}
 	provided := map[string][]string{}
@@ -615,7 +770,7 @@ func main() {
 	fmt.Printf("phase exhaustive done at %.1fs (%d states, %d edges)\n", time.Since(env.Start).Seconds(), res.Distinct, res.Generated)
 	// one TLC run for the long seeded histories of all three kinds
 	scfg := "sim_" + tier + ".cfg"
-	num := env.Pick(150, 1500)
+	num := env.Pick(300, 1500)
 	depth := env.Pick(8, 12)
 	sres := env.MustTLC(common.TLCRun{Dir: "C17", Module: "PyHeapMC", Config: "run.cfg", Extra: map[string]string{"run.cfg": subst(scfg)},
 		Simulate: fmt.Sprintf("num=%d", num), Depth: depth + 1, Seed: env.Seed, Workers: 1, Timeout: 40 * time.Minute,
@@ -652,6 +807,7 @@ func main() {
 	rep.Extra["simulated_histories"] = simHist
 	rep.Extra["histories_cut_short_by_an_earlier_divergence"] = stopped
 	rep.Extra["histories_ending_in_go_panic"] = panics
+	rep.Extra["histories_killing_the_interpreter_process"] = fatals
 	rep.Extra["model"] = modelStats
 	rep.Finish()
 }
